@@ -91,6 +91,9 @@ func runC07(p *core.Program, r *core.Report) {
 	for _, f := range all {
 		r.Functions[p.FuncName(f)] = true
 	}
+	stateInventory(c, "cache", "LRUCache", []string{"items", "evictList", "size"}, all)
+	stateInventory(c, "cache", "lruList", []string{"root", "len"}, all)
+	stateInventory(c, "cache", "node", []string{"next", "prev", "list", "key", "value"}, all)
 
 	// ---- AG1: who refreshes recency
 	wantRefresh := map[string]bool{"Add": true, "Get": true, "GetOldest": true}
